@@ -261,7 +261,59 @@ def normalize_pair(case, impl, model):
     return TG.normalize_unpack_pair(case, impl, model)
 
 
+PTR_DEFAULT_WHY = "a non-nil pointer field passes Unpack although what it points to breaks the field's validate tag"
+
+
+def ptr_default_violation(ty, val, path=""):
+    """the open finding D55: a struct field of type pointer to a number or string that is non-nil in the result while the
+    value it points to breaks min / max / positive (numbers) or nonzero (strings) of its tag. Whatever the configuration
+    sets is validated as the value itself, so such a result can only be a pre-filled default the configuration left alone.
+    Decides only the unambiguous validator spellings; returns the path of the field or None."""
+    import re
+    if not isinstance(ty, dict) or not isinstance(val, dict):
+        return None
+    t = ty.get("t")
+    if t == "ptr":
+        return ptr_default_violation(ty["e"], val.get("p"), path) if isinstance(val.get("p"), dict) else None
+    if t != "struct" or not isinstance(val.get("st"), list):
+        return None
+    for f, x in zip(ty["f"], val["st"]):
+        fty = f["ty"]
+        here = path + "." + f["n"]
+        if "ignore" in (f.get("tag") or "") or not f["n"][:1].isupper():
+            continue
+        if fty.get("t") == "ptr" and isinstance(x, dict) and isinstance(x.get("p"), dict):
+            inner, pv = fty["e"], x["p"]
+            k = inner.get("t")
+            for tok in [z.strip() for z in (f.get("v") or "").split(",") if z.strip()]:
+                m = re.fullmatch(r"(min|max)=(-?\d+)", tok)
+                if k in TG.INT_KINDS + TG.UINT_KINDS and ("i" in pv or "u" in pv):
+                    n = int(pv.get("i", pv.get("u")))
+                    if m and ((m.group(1) == "min" and n < int(m.group(2))) or (m.group(1) == "max" and n > int(m.group(2)))):
+                        return here
+                    if tok == "positive" and n < 0:
+                        return here
+                if k == "string" and tok == "nonzero" and pv.get("s") == "":
+                    return here
+            r = ptr_default_violation(inner, pv, here)
+            if r:
+                return r
+        elif fty.get("t") == "struct":
+            r = ptr_default_violation(fty, x, here)
+            if r:
+                return r
+    return None
+
+
+def known_class(case, impl, why):
+    return "D55" if (why or "").startswith(PTR_DEFAULT_WHY) else None
+
+
 def oracle(case, impl, model):
+    if case.get("k") == "unpack" and isinstance(impl, dict) and isinstance(impl.get("ok"), dict):
+        where = ptr_default_violation(case.get("ty"), impl["ok"])
+        if where:
+            return (False, PTR_DEFAULT_WHY + " (" + where + ")")
     if case.get("k") == "ifaceheld":
         if not isinstance(impl, dict):
             return (False, "no result")
